@@ -297,6 +297,24 @@ CLAIMED["C15"] = dict(
     technique="Lean 4 induction over call histories on an extracted effect model + exact algebra of the cut-off bracket + history differential testing with deep snapshots",
     ref="DESIGN.md §5 C15")
 
+CLAIMED["C18"] = dict(
+    text="Lean 4 proof about (a) the model of _data_with_axis / _extract_data_with_axis on arrays of shape (N,) and (N,M): a 1-D array and "
+         "every (N,M>=2) array exported with its axis come back as the same axis and the same array, same shape and order, for every N "
+         "(extract_pack_r1, extract_pack_r2); an (N,1) array comes back with the same values as rank 1 (extract_pack_N1_witness); files "
+         "with fewer than two columns are refused; (b) the dispatch tables of save_data / load_data re-extracted from the source: same "
+         "extensions, the reader is the inverse of the writer, every writer packs and every reader unpacks the axis (dispatch_consistent, "
+         "decide); (c) pickled basis-managed objects on the bookkeeping model of C04: the state written under ANY stack of open basis "
+         "contexts (also after reads inside them) is the representation outside all contexts (save_any_context via undo_spec) and, loaded "
+         "under ANY other stack, every later read presents the same physical object in the basis then current "
+         "(save_load_any_contexts, load_level0_any_context); that __getstate__ has this shape is re-extracted on every run. Units: stored "
+         "values are internal by construction (observed). Tied to the code by the format x dtype x shape x axis matrix compared exactly, "
+         "pack/extract and the dispatch compared with the model, and 17 saveable classes saved and loaded (files and scopy) under all "
+         "combinations of unit/basis contexts at save and load time, observables compared under a common context.",
+    note="Lean kernel + standard axioms; byte-level fidelity of dill, numpy.save/savetxt/loadtxt and scipy.io is trusted and observed "
+         "through the round trips only; text files cannot hold degenerate shapes (values compared, shape not demanded there).",
+    technique="Lean 4 proofs on pack/extract (all N, M) + extracted dispatch tables (decide) + group-action save/load theorem on the C04 model + round-trip matrix",
+    ref="DESIGN.md §5 C18")
+
 NOT_APPLICABLE = {}
 
 
